@@ -14,11 +14,15 @@ import (
 func defaultHasher[T comparable]() func(T, uint64) uint64 {
 	var zero T
 
-	if reflect.TypeOf(&zero).Elem().Kind() == reflect.Interface {
+	if rt := reflect.TypeOf(&zero).Elem(); rt.Kind() == reflect.Interface {
+		// Hash through the interface type's own descriptor, with a pointer to
+		// the interface value: runtime.typehash then dispatches on the dynamic
+		// type itself, as a builtin map does (a nil key hashes fine, and
+		// pointer-shaped dynamic values are hashed by identity, not through
+		// the memory they point to).
+		typ := uintptr((*iface)(unsafe.Pointer(&rt)).word)
 		return func(value T, seed uint64) uint64 {
-			iValue := any(value)
-			i := (*iface)(unsafe.Pointer(&iValue))
-			return runtime_typehash64(i.typ, i.word, seed)
+			return runtime_typehash64(typ, unsafe.Pointer(&value), seed)
 		}
 	} else {
 		var iZero any = zero
